@@ -13,13 +13,15 @@ def V(k):
     TRACE.append(k); return k * 11
 def P(k, *a):
     TRACE.append(k); print('p%s' % (k,))
+def PX(k):
+    TRACE.append(k); print('p%s' % (k,)); raise ValueError('e%s' % (k,))
 def D(k):
     TRACE.append(('D', k))
     def deco(f):
         TRACE.append(('d', k)); return f
     return deco
 '''
-TRACER_NAMES = ('T', 'V', 'P', 'D', 'TRACE')
+TRACER_NAMES = ('T', 'V', 'P', 'D', 'PX', 'TRACE')
 
 
 class NS(dict):
